@@ -16,7 +16,11 @@ META = {
             "when a resize completed since the last build and a rebuild re-establishes the spec.  The model is tied to "
             "dune/common/parallel/remoteindices.hh on every run by running extracted model, extracted spec and the real class under "
             "mpirun on identical generated decompositions, each with global index type int and with one of long / unsigned long long / "
-            "bigunsignedint<55|64|100> (values using the most significant digit).",
+            "bigunsignedint<55|64|100> (values using the most significant digit) / short over the whole signed range with attribute "
+            "enumerators -128..127.  Dimension audit 2: a re-used object builds on the communicator given LAST (C04_obj_history_comm) and, "
+            "once re-targeted by setIndexSets + setIncludeSelf, behaves in every further history like a freshly constructed object "
+            "(C04_retarget_as_fresh); includeSelf may differ from process to process (C04_build_incs); the harness varies the communicator "
+            "(given / duplicate / reversed / rotated ranks), pre-built objects, per-rank includeSelf and index sets of several hundred pairs.",
     "note": "Trusted: Coq kernel, extraction, OCaml driver, C++ MPI harness, OpenMPI (matching, non-overtaking, MPI_Pack of the struct "
             "datatype; the small-step semantics of Ssend/Recv rendezvous and of Issend/Probe(ANY_SOURCE)/Recv/Waitall used by C04_ring_no_deadlock and C04_neighbour_mode_terminates is a model of MPI), std::map; mixed one/two-set "
             "configurations are outside the property (model returns MIXED); seqNo int overflow not modelled.",
@@ -42,8 +46,16 @@ class Case:
     def twocode(self):
         return 2 + sum(1 << r for r in range(self.P) if self.tw(r)) if self.mixed() else int(self.tw(0))
 
+    def inc(self, r):
+        """includeSelf of rank r: c.incs (per rank) overrides the uniform c.incself"""
+        t = getattr(self, "incs", None)
+        return bool(t[r]) if t is not None else bool(self.incself)
+
     def line(self):
-        t = [self.P, self.twocode(), int(self.ign), int(self.incself), self.mode, self.seed, int(self.ign2), self.resize]
+        incs = getattr(self, "incs", None)
+        inctok = 2 + sum(1 << r for r in range(self.P) if incs[r]) if incs is not None else int(self.incself)
+        modetok = int(self.mode) + 2 * getattr(self, "ck", 0) + 8 * getattr(self, "pre", 0)
+        t = [self.P, self.twocode(), int(self.ign), inctok, modetok, self.seed, int(self.ign2), self.resize]
         for ph in (0, 1):
             for r in range(self.P):
                 for s in (self.src[ph][r], self.dst[ph][r]):
@@ -59,8 +71,12 @@ def parse_case(line):
     def nx():
         v = t[pos[0]]; pos[0] += 1; return v
     c = Case()
-    c.P, code, c.ign, c.incself, c.mode, c.seed, c.ign2, c.resize = nx(), nx(), nx() == 1, nx() == 1, nx(), nx(), nx() == 1, nx()
+    c.P, code, c.ign, inctok, modetok, c.seed, c.ign2, c.resize = nx(), nx(), nx() == 1, nx(), nx(), nx(), nx() == 1, nx()
     c.two = code != 0
+    c.mode, c.ck, c.pre = modetok & 1, (modetok >> 1) & 3, (modetok >> 3) & 1
+    c.incself = inctok == 1
+    if inctok >= 2:
+        c.incs = [bool(((inctok - 2) >> r) & 1) for r in range(c.P)]; c.incself = any(c.incs)
     if code >= 2: c.twos = [bool(((code - 2) >> r) & 1) for r in range(c.P)]
     def rset():
         return [(nx(), nx(), nx(), nx()) for _ in range(nx())]
@@ -79,8 +95,10 @@ def pub(ign, s):
 
 
 def join(from_self, local, remote):
-    """[(local pair, remote attr) | r <- remote, l <- local, g equal (, attrs differ)]"""
-    return [(l, r[2]) for r in remote for l in local if l[0] == r[0] and (not from_self or l[2] != r[2])]
+    """[(local pair, remote attr) | r <- remote, l <- local, g equal (, attrs differ)]  (locals bucketed by g: same list, same order)"""
+    byg = {}
+    for l in local: byg.setdefault(l[0], []).append(l)
+    return [(l, r[2]) for r in remote for l in byg.get(r[0], ()) if (not from_self or l[2] != r[2])]
 
 
 def spec_map(c, ph, ign):
@@ -94,12 +112,12 @@ def spec_map(c, ph, ign):
             if q == p:
                 if c.tw(p):
                     hi = (join(False, pub(ign, c.src[ph][p]), pub(ign, tgt(p))), join(False, pub(ign, tgt(p)), pub(ign, c.src[ph][p])))
-                    if c.incself:
+                    if c.inc(p):
                         lo = (join(True, pub(ign, c.src[ph][p]), pub(ign, tgt(p))), join(True, pub(ign, tgt(p)), pub(ign, c.src[ph][p])))
                         m[q] = hi + lo
                     elif hi[0] or hi[1]:
                         m[q] = hi
-                elif c.incself:
+                elif c.inc(p):
                     s = join(True, pub(ign, c.src[ph][p]), pub(ign, c.src[ph][p]))
                     if s: m[q] = (s, s)
             else:
@@ -177,15 +195,28 @@ def sig_of(c, kind, gtype=0):
     return "C04:%s:%s:%s%s" % (kind, "mixed" if c.mixed() else "two" if c.two else "one", "nbr" if c.mode else "ring", (":gtype=" + GTYPES[gtype]) if gtype else "")
 
 
-GTYPES = ["int", "long", "unsigned_long_long", "bigunsignedint55", "bigunsignedint64", "bigunsignedint100"]
+GTYPES = ["int", "long", "unsigned_long_long", "bigunsignedint55", "bigunsignedint64", "bigunsignedint100", "short_signed_extremes"]
+
+
+def comm_rank(k, P, w):
+    """rank of process w in communicator kind k (0 given, 1 duplicate, 2 reversed, 3 rotated)"""
+    return P - 1 - w if k == 2 else (w + 1) % P if k == 3 else w
+
+
+def comm_world(k, P, i):
+    return P - 1 - i if k == 2 else (i + P - 1) % P if k == 3 else i
+
+
+def comm_view(k, l):
+    return [l[comm_world(k, len(l), i)] for i in range(len(l))]
 
 
 def gtype_of(line):
-    """the global index type the harness picks for this case line under C04_GTYPE=rot: 1 + FNV-1a(line) % 5"""
+    """the global index type the harness picks for this case line under C04_GTYPE=rot: 1 + FNV-1a(line) % 6"""
     h = 2166136261
     for ch in line.encode():
         h = ((h ^ ch) * 16777619) & 0xffffffff
-    return 1 + h % 5
+    return 1 + h % 6
 
 
 # ----------------------------------------------------------------------------- generator
@@ -302,8 +333,34 @@ def gen_random(rng, P, seedno):
         c.dst = [[gen_set(rng, tt[p], attrs, pubmode, dup) if c.tw(p) else [] for p in range(P)], None]
     else:
         c.dst = [[[] for _ in range(P)], None]
+    # dimension audit 2: communicator kind (the case is numbered by the ranks IN it), pre-existing state of the object
+    # (built elsewhere, then re-targeted), includeSelf differing from rank to rank
+    c.ck = rng.choice([0, 0, 1, 2, 2, 3]); c.pre = int(rng.random() < 0.3)
+    if P >= 2 and not c.mixed() and rng.random() < 0.3:
+        c.incs = [rng.random() < 0.5 for _ in range(P)]; c.incself = any(c.incs)
     c.src[1] = [mutate_set(rng, s, U, attrs) if (c.resize & 1 or (not c.tw(p) and c.resize)) else list(s) for p, s in enumerate(c.src[0])]
     c.dst[1] = [mutate_set(rng, s, U, attrs) if (c.tw(p) and c.resize & 2) else list(s) for p, s in enumerate(c.dst[0])]
+    return finish_case(c, rng)
+
+
+def gen_large(rng, P, seedno):
+    """scale: index sets of several hundred pairs (messages beyond the eager limit, counters beyond 255), globals up to 550"""
+    c = Case(); c.P = P; c.two = rng.random() < 0.5; c.ign = rng.random() < 0.3; c.ign2 = not c.ign if rng.random() < 0.3 else c.ign
+    c.incself = rng.random() < 0.3; c.mode = int(rng.random() < 0.5); c.seed = seedno; c.resize = rng.choice([0, 1, 3])
+    c.ck = rng.choice([0, 2, 3]); c.pre = int(rng.random() < 0.3)
+    U = rng.choice([400, 550]); dup = rng.random() < 0.4
+    def big():
+        out = []; n = 0
+        dens = rng.choice([0.6, 0.75])
+        for g in range(U):
+            if rng.random() < dens:
+                for a in sorted(rng.sample(range(3), rng.choice([2, 3]) if (dup and rng.random() < 0.2) else 1)):
+                    out.append((g, (n * 7) % 3001, a, int(rng.random() < 0.8))); n += 1
+        return out
+    c.src = [[big() for _ in range(P)], None]
+    c.dst = [[big() if c.two else [] for _ in range(P)], None]
+    c.src[1] = [mutate_set(rng, x, U, 3) if (c.resize & 1 or (not c.two and c.resize)) else list(x) for x in c.src[0]]
+    c.dst[1] = [mutate_set(rng, x, U, 3) if (c.two and c.resize & 2) else list(x) for x in c.dst[0]]
     return finish_case(c, rng)
 
 
@@ -338,6 +395,9 @@ def gen(ctx):
         for _ in range(per[P]):
             n += 1
             cases.append(gen_random(rng, P, n))
+    rl = ctx.rng("large")
+    for j in range(4 if ctx.quick else 30):
+        cases.append(gen_large(rl, 2 + j % 2 if ctx.quick else 2 + j % 3, 900000 + j))
     return cases
 
 
@@ -357,13 +417,13 @@ class HCase:
         for d in self.D: sets(d)
         t += [len(self.slot0)] + list(self.slot0)
         k, sl, h, inc = self.ctor
-        t += [k, sl, int(h is not None), int(inc)]
+        t += [k, sl + 16 * getattr(self, "cck", 0), int(h is not None), int(inc)]
         if h is not None: hints(h)
         t.append(len(self.ops))
         for o in self.ops:
             t.append(o[0])
             if o[0] == 1:
-                t += [o[1], int(o[2] is not None)]
+                t += [o[1] + 16 * (o[3] if len(o) > 3 else 0), int(o[2] is not None)]
                 if o[2] is not None: hints(o[2])
             elif o[0] == 2: hints(o[1])
             elif o[0] == 3: t.append(int(o[1]))
@@ -386,12 +446,13 @@ def parse_hcase(line):
     c.slot0 = [nx() for _ in range(nx())]
     rh = lambda: [[nx() for _ in range(nx())] for _ in range(c.P)]
     k, sl, hf, inc = nx(), nx(), nx(), nx() == 1
+    c.cck = (sl >> 4) & 3; sl &= 15
     c.ctor = (k, sl, rh() if hf else None, inc)
     c.ops = []
     for _ in range(nx()):
         k = nx()
         if k == 1:
-            sl, hf = nx(), nx(); c.ops.append((1, sl, rh() if hf else None))
+            sl, hf = nx(), nx(); c.ops.append((1, sl & 15, rh() if hf else None, (sl >> 4) & 3))
         elif k == 2: c.ops.append((2, rh()))
         elif k == 3: c.ops.append((3, nx() == 1))
         elif k == 4: c.ops.append((4,))
@@ -407,8 +468,10 @@ def hist_walk(c):
     hints = [sorted(set(l)) for l in h] if h is not None else [[] for _ in range(c.P)]
     built, stale, held = None, False, None
     out = []
+    ck = getattr(c, "cck", 0)                       # the communicator given last; hints are indexed by the rank in it
     for o in c.ops:
         if o[0] == 1:
+            ck = o[3] if len(o) > 3 else 0
             cur = o[1]; hints = [sorted(set(l)) for l in o[2]] if o[2] is not None else [[] for _ in range(c.P)]
             built, stale, held = None, False, None
         elif o[0] == 2: hints = [sorted(set(l)) for l in o[1]]
@@ -427,7 +490,7 @@ def hist_walk(c):
                 if not early: hints = [[q for q in l if q != p] for p, l in enumerate(hints)]
                 held = ([list(x) for x in cont[cur][0]], [list(x) for x in cont[cur][1]], ign, inc)
                 built, stale = ign, False
-            out.append((before, [list(l) for l in hints], held))
+            out.append((before, [list(l) for l in hints], held, ck))
     return out
 
 
@@ -444,16 +507,18 @@ def hist_oracle(c, impl_line):
         if not s.startswith("r%d" % p): return ("format", "rank record %d unreadable: %s" % (p, s[:200]))
         recs = HREC.findall(s)
         if len(recs) != len(exp): return ("format", "rank %d: %d rebuild records, expected %d" % (p, len(recs), len(exp)))
-        for n, (rec, (before, hints, held)) in enumerate(zip(recs, exp)):
+        for n, (rec, (before, hints, held, ck)) in enumerate(zip(recs, exp)):
             b, sy, gn, eq, nb, mp, bad = rec
             tag = "rank %d rebuild %d" % (p, n + 1)
             if sy != "1": return ("sync", "%s: isSynced() false right after rebuild" % tag)
             if before is not None and b != "?" and int(b) != int(before):
                 return ("sync", "%s: isSynced()=%s before the rebuild, but the targeted sets were %sresized since the last build" % (tag, b, "" if not before else "not "))
-            k = Case(); k.P, k.two, k.incself = c.P, c.two, held[3]; k.src = [held[0]]; k.dst = [held[1]]
-            r = check_map(k, spec_map(k, 0, held[2])[p], parse_map(mp), int(nb), tag)
-            if r: return ("lists", r)
-            if [int(x) for x in gn.split(",") if x] != hints[p]: return ("neighbours", "%s: getNeighbours()=[%s], expected %s" % (tag, gn, hints[p]))
+            # the build runs on communicator ck: process p has rank cp in it, the sets are seen through its numbering
+            cp = comm_rank(ck, c.P, p)
+            k = Case(); k.P, k.two, k.incself = c.P, c.two, held[3]; k.src = [comm_view(ck, held[0])]; k.dst = [comm_view(ck, held[1])]
+            r = check_map(k, spec_map(k, 0, held[2])[cp], parse_map(mp), int(nb), tag)
+            if r: return ("lists", r + (" (communicator kind %d, rank %d in it)" % (ck, cp) if ck else ""))
+            if [int(x) for x in gn.split(",") if x] != hints[cp]: return ("neighbours", "%s: getNeighbours()=[%s], expected %s" % (tag, gn, hints[cp]))
             if eq != "1": return ("opeq", "%s: operator== against a freshly built object over the same index sets is false" % tag)
             if bad.strip(): return ("api", "%s:%s" % (tag, bad))
     return None
@@ -477,12 +542,14 @@ def gen_hist(rng, P, seedno):
     c.slot0 = [rng.randrange(M), rng.randrange(M)]
     HOLE = "H"                                      # hints to be filled in by the second pass
     def hint_choice(): return HOLE if rng.random() < 0.6 else None
+    ckc = lambda: rng.choice([0, 0, 1, 2, 2, 3])     # communicator kind given with the constructor / each setIndexSets
+    c.cck = ckc()
     c.ctor = (rng.choice([0, 0, 1]), rng.randrange(2), hint_choice(), rng.random() < 0.3)
     ops = []
     for _ in range(rng.choice([2, 3, 3, 4])):
         for _ in range(rng.choice([0, 1, 1, 2, 3])):
             z = rng.random()
-            if z < 0.3: ops.append((1, rng.randrange(2), hint_choice()))
+            if z < 0.3: ops.append((1, rng.randrange(2), hint_choice(), ckc()))
             elif z < 0.45: ops.append((2, HOLE if rng.random() < 0.7 else "EMPTY"))
             elif z < 0.6: ops.append((3, rng.random() < 0.5))
             elif z < 0.7: ops.append((4,))
@@ -493,12 +560,12 @@ def gen_hist(rng, P, seedno):
         ops.append((5, rng.random() < 0.4, False))
     # second pass: simulate, collect per hint epoch the contents that are built under it, fill tight admissible hints
     cont = [[c.D[m][0], c.D[m][1]] for m in c.slot0]
-    cur = c.ctor[1]
+    cur = c.ctor[1]; ck = c.cck
     epochs = []                                     # [setter index (-1 = ctor), list of (src, dst) contents built]
     ep = [-1, []] if c.ctor[2] == HOLE else None
     for i, o in enumerate(ops):
         if o[0] == 1:
-            cur = o[1]
+            cur = o[1]; ck = o[3]
             if ep: epochs.append(ep)
             ep = [i, []] if o[2] == HOLE else None
         elif o[0] == 2:
@@ -508,7 +575,7 @@ def gen_hist(rng, P, seedno):
             if o[2]: cont[o[1]][0] = c.D[o[4]][0]
             if o[3] and c.two: cont[o[1]][1] = c.D[o[4]][1]
         elif o[0] == 5 and ep is not None:
-            ep[1].append((cont[cur][0], cont[cur][1]))
+            ep[1].append((comm_view(ck, cont[cur][0]), comm_view(ck, cont[cur][1])))
     if ep: epochs.append(ep)
     def mk_hints(builds):
         g = [set() for _ in range(P)]
@@ -532,7 +599,7 @@ def gen_hist(rng, P, seedno):
     k, sl, h, inc = c.ctor
     c.ctor = (k, sl, fill[-1] if h == HOLE else None, inc)
     for i, o in enumerate(ops):
-        if o[0] == 1 and o[2] == HOLE: ops[i] = (1, o[1], fill[i])
+        if o[0] == 1 and o[2] == HOLE: ops[i] = (1, o[1], fill[i], o[3])
         elif o[0] == 2: ops[i] = (2, fill[i] if o[1] == HOLE else [[] for _ in range(P)])
     c.ops = ops
     # third pass: the includeSelf value a comparison object must use = the one in force at the last effective build
@@ -581,7 +648,7 @@ def run_impl(ctx, exe, cases, tag, tmo=None, env=None, hist=False):
         cmd = ["mpirun", "--allow-run-as-root", "--oversubscribe", "-np", str(P), exe] + (["hist"] if hist else [])
         t0 = time.time()
         res = V.run_cases(ctx, cmd, lines, tag="%s.p%d" % (tag, P), timeout=max(300, len(lines) * 2 + 4 * tmo), max_restarts=4,
-                          env=dict({"C04_CASE_TIMEOUT": str(tmo), "OMPI_MCA_rmaps_base_oversubscribe": "1", "OMPI_MCA_mpi_yield_when_idle": "1"}, **(env or {})))
+                          env=dict({"C04_CASE_TIMEOUT": str(tmo), "C04_SMALL_TIMEOUT": str(10 if tmo <= 60 else tmo), "OMPI_MCA_rmaps_base_oversubscribe": "1", "OMPI_MCA_mpi_yield_when_idle": "1"}, **(env or {})))
         ctx.log("%s: P=%d %d cases %.1fs" % (tag, P, len(lines), time.time() - t0))
         for i, l in zip(idx, res): out[i] = l
         for f in sorted(os.listdir(ctx.build)):
@@ -646,7 +713,9 @@ def run(ctx):
     cases = gen(ctx)
     lines = [c.line() for c in cases]
     ctx.log("generated %d cases" % len(cases))
-    mo = V.run_cases(ctx, [model], lines, tag="model", timeout=900)
+    # the unary-nat fuel of the merge-join model nests deeply on the large cases: run the model without a stack limit
+    model_cmd = ["sh", "-c", 'ulimit -s unlimited 2>/dev/null; exec "$0" "$@"', model]
+    mo = V.run_cases(ctx, model_cmd, lines, tag="model", timeout=900)
     io, shim = run_split(ctx, exe, cases, "impl")
     # a timed-out / crashed case is re-run once alone before it is believed
     nrerun = 0
@@ -686,13 +755,18 @@ def run(ctx):
     hmo = V.run_cases(ctx, [model, "hist"], hlines, tag="hmodel", timeout=900)
     hio, _ = run_impl(ctx, exe, hcases, "himpl", hist=True)
     nh, hstat = 0, {"rebuilds": 0, "setIndexSets_with_hints": 0, "setIndexSets_without_hints": 0, "setNeighbours": 0, "setIncludeSelf": 0,
-                    "free": 0, "resizes": 0, "default_ctor": 0, "rebuilds_not_taking_place": 0}
+                    "free": 0, "resizes": 0, "default_ctor": 0, "rebuilds_not_taking_place": 0, "setIndexSets_changing_the_communicator_numbering": 0}
     for i, (c, m, a) in enumerate(zip(hcases, hmo, hio)):
         mm, _, spec = m.partition(" | ")
         for o in c.ops:
             if o[0] == 1: hstat["setIndexSets_with_hints" if o[2] is not None else "setIndexSets_without_hints"] += 1
             else: hstat[{2: "setNeighbours", 3: "setIncludeSelf", 4: "free", 5: "rebuilds", 6: "resizes"}[o[0]]] += 1
         hstat["default_ctor"] += c.ctor[0]
+        kk = getattr(c, "cck", 0)
+        for o in c.ops:
+            if o[0] == 1:
+                k2 = o[3] if len(o) > 3 else 0
+                hstat["setIndexSets_changing_the_communicator_numbering"] += int(comm_view(kk, list(range(c.P))) != comm_view(k2, list(range(c.P)))); kk = k2
         hstat["rebuilds_not_taking_place"] += sum(1 for w in hist_walk(c) if w[0] is True)
         if a is None or a.startswith("NOT-RUN"): continue
         if (a.startswith("HANG") or a.startswith("CRASH")) and nh < 3:
@@ -733,12 +807,15 @@ def run(ctx):
                 ctx.violation(sig_of(cases[i], "sanitizer"), {"case": lines[i], "impl": io[i], "impl_sanitized_build": so[j],
                                                                "oracle": "ASan/UBSan build behaves differently or aborts"})
     nviol = ndis = nspec = nnotrun = 0
-    stats = {"P": {}, "mode": {}, "two": 0, "ign": 0, "incself": 0, "resize": {}, "dup_globals": 0, "self_entries": 0, "entries": 0,
+    stats = {"communicator_kind": {}, "prebuilt_then_retargeted": 0, "includeSelf_per_rank": 0, "large_sets": 0, "P": {}, "mode": {}, "two": 0, "ign": 0, "incself": 0, "resize": {}, "dup_globals": 0, "self_entries": 0, "entries": 0,
              "ranks_without_neighbours": 0, "nonpublic_pairs": 0}
     nontriv = set()
     for i, (c, m, a) in enumerate(zip(cases, mo, io)):
         mm, _, spec = m.partition(" | ")
         stats["P"][c.P] = stats["P"].get(c.P, 0) + 1
+        ckk = str(getattr(c, "ck", 0)); stats["communicator_kind"][ckk] = stats["communicator_kind"].get(ckk, 0) + 1
+        stats["prebuilt_then_retargeted"] += getattr(c, "pre", 0); stats["includeSelf_per_rank"] += int(getattr(c, "incs", None) is not None and len(set(c.incs)) > 1)
+        stats["large_sets"] += int(any(len(x) > 255 for x in c.src[0] + c.dst[0]))
         stats["mode"]["nbr" if c.mode else "ring"] = stats["mode"].get("nbr" if c.mode else "ring", 0) + 1
         stats["two"] += c.two; stats["mixed_one_two"] = stats.get("mixed_one_two", 0) + c.mixed(); stats["ign"] += c.ign; stats["incself"] += c.incself
         stats["resize"][c.resize] = stats["resize"].get(c.resize, 0) + 1
@@ -786,8 +863,10 @@ def run(ctx):
                 "publicity modes, ring/neighbour alternating) + seeded random decompositions from overlap graphs (chain, ring, star, complete, random), "
                 "universe <= 16, attrs <= 3, public flags random / all / none, one or two decompositions, empty ranks, duplicate-global sets (15%), "
                 "ring or neighbour hints (true graph, supersets, self included), resize of source/target/both + second rebuild with same or flipped "
-                "ignorePublic; every case is run twice: global index type int, and one of long (with a long-based attribute enum, chunk size 3) / "
-                "unsigned long long / bigunsignedint<55> / <64> / <100> chosen by a hash of the case, ids embedded as (0x80+id)*2^(w-8)+id; non-trivial = at least one remote-index entry expected in build 1; distinct = distinct case lines",
+                "ignorePublic; communicator of the case one of given / MPI_Comm_dup / ranks reversed / ranks rotated (case numbered by the ranks in it); "
+                "30% of the objects pre-built over other sets on another communicator with the opposite includeSelf and then re-targeted; includeSelf per rank (30% of the "
+                "non-mixed cases); + large cases (240-450 pairs per set, universe <= 550); every case is run twice: global index type int, and one of long (with a long-based attribute enum, chunk size 3) / "
+                "unsigned long long / bigunsignedint<55> / <64> / <100> chosen by a hash of the case, ids embedded as (0x8000+id)*2^(w-16)+id, or short over the whole signed range with a signed-char attribute enum (-128, -1, 127 ..); non-trivial = at least one remote-index entry expected in build 1; distinct = distinct case lines",
         "samples": [lines[0][:300], lines[len(lines) // 2][:300], lines[-1][:300]],
         "distribution": stats, "impl_model_disagreements": ndis, "oracle_rejections": nviol, "model_spec_disagreements": nspec,
         "pmpi_shim": {"linked": os.path.exists(SHIM), "perturbed_sweeps": shim[0], "calls_reporting_out_of_index_order": shim[1], "delays": shim[2]},
